@@ -43,6 +43,9 @@ pub struct QosModel {
     ent: Ent,
     enabled: bool,
     topic: Option<TopicAsync>,
+    /// the factories of a writer / reader (they hold the default QoS of the kind)
+    parent_pub: Option<PublisherAsync>,
+    parent_sub: Option<SubscriberAsync>,
 }
 
 fn run<T>(f: impl std::future::Future<Output = T>) -> T {
@@ -205,41 +208,53 @@ impl QosModel {
             settle(1000).await;
             (p1, p2, topic)
         });
+        let (parent_pub, parent_sub) = run(async {
+            (if kind == "writer" { Some(p1.create_publisher(QosKind::Default, NO_LISTENER, NO_STATUS).await.expect("publisher")) } else { None },
+             if kind == "reader" { Some(p1.create_subscriber(QosKind::Default, NO_LISTENER, NO_STATUS).await.expect("subscriber")) } else { None })
+        });
         let is_part = kind == "participant";
-        QosModel { kind, p1: Some(p1), p2: Some(p2), ent: if is_part { Ent::Participant } else { Ent::None }, enabled: is_part, topic }
+        QosModel { kind, p1: Some(p1), p2: Some(p2), ent: if is_part { Ent::Participant } else { Ent::None }, enabled: is_part, topic, parent_pub, parent_sub }
     }
 
-    async fn create(&mut self, q: &Value, en: bool) -> Result<(), DdsError> {
+    /// `q` = None: create with QosKind::Default (the factory default of the kind)
+    async fn create(&mut self, q: Option<&Value>, en: bool) -> Result<(), DdsError> {
         let p1 = self.p1.clone().unwrap();
         let fac = EntityFactoryQosPolicy { autoenable_created_entities: en };
         match self.kind.as_str() {
             "writer" => {
                 let t = self.topic.clone().unwrap();
-                let pb = p1.create_publisher(QosKind::Specific(PublisherQos { entity_factory: fac, ..Default::default() }), NO_LISTENER, NO_STATUS).await?;
-                let w = pb.create_datawriter::<KeyedData>(&t, QosKind::Specific(wqos(q)), NO_LISTENER, NO_STATUS).await?;
+                let pb = self.parent_pub.clone().unwrap();
+                pb.set_qos(QosKind::Specific(PublisherQos { entity_factory: fac, ..Default::default() })).await?;
+                let k = match q { Some(q) => QosKind::Specific(wqos(q)), None => QosKind::Default };
+                let w = pb.create_datawriter::<KeyedData>(&t, k, NO_LISTENER, NO_STATUS).await?;
                 self.ent = Ent::Writer(w);
             }
             "reader" => {
                 let t = self.topic.clone().unwrap();
-                let sb = p1.create_subscriber(QosKind::Specific(SubscriberQos { entity_factory: fac, ..Default::default() }), NO_LISTENER, NO_STATUS).await?;
-                let r = sb.create_datareader::<KeyedData>(&t, QosKind::Specific(rqos(q)), NO_LISTENER, NO_STATUS).await?;
+                let sb = self.parent_sub.clone().unwrap();
+                sb.set_qos(QosKind::Specific(SubscriberQos { entity_factory: fac, ..Default::default() })).await?;
+                let k = match q { Some(q) => QosKind::Specific(rqos(q)), None => QosKind::Default };
+                let r = sb.create_datareader::<KeyedData>(&t, k, NO_LISTENER, NO_STATUS).await?;
                 self.ent = Ent::Reader(r);
             }
             "topic" => {
                 p1.set_qos(QosKind::Specific(DomainParticipantQos { entity_factory: fac, ..Default::default() })).await?;
-                let r = p1.create_topic::<KeyedData>("Q", "KeyedData", QosKind::Specific(tqos(q)), NO_LISTENER, NO_STATUS).await;
+                let k = match q { Some(q) => QosKind::Specific(tqos(q)), None => QosKind::Default };
+                let r = p1.create_topic::<KeyedData>("Q", "KeyedData", k, NO_LISTENER, NO_STATUS).await;
                 p1.set_qos(QosKind::Default).await?;
                 self.ent = Ent::Topic(r?);
             }
             "publisher" => {
                 let t = self.topic.clone().unwrap();
-                let pb = p1.create_publisher(QosKind::Specific(pqos(q)), NO_LISTENER, NO_STATUS).await?;
+                let k = match q { Some(q) => QosKind::Specific(pqos(q)), None => QosKind::Default };
+                let pb = p1.create_publisher(k, NO_LISTENER, NO_STATUS).await?;
                 let w = pb.create_datawriter::<KeyedData>(&t, QosKind::Default, NO_LISTENER, NO_STATUS).await?;
                 self.ent = Ent::Publisher(pb, w);
             }
             "subscriber" => {
                 let t = self.topic.clone().unwrap();
-                let sb = p1.create_subscriber(QosKind::Specific(sqos(q)), NO_LISTENER, NO_STATUS).await?;
+                let k = match q { Some(q) => QosKind::Specific(sqos(q)), None => QosKind::Default };
+                let sb = p1.create_subscriber(k, NO_LISTENER, NO_STATUS).await?;
                 let r = sb.create_datareader::<KeyedData>(&t, QosKind::Default, NO_LISTENER, NO_STATUS).await?;
                 self.ent = Ent::Subscriber(sb, r);
             }
@@ -247,6 +262,32 @@ impl QosModel {
         }
         self.enabled = en;
         Ok(())
+    }
+
+    async fn set_default(&self, q: Option<&Value>) -> Result<(), DdsError> {
+        let p1 = self.p1.clone().unwrap();
+        match self.kind.as_str() {
+            "writer" => self.parent_pub.as_ref().unwrap().set_default_datawriter_qos(match q { Some(q) => QosKind::Specific(wqos(q)), None => QosKind::Default }).await,
+            "reader" => self.parent_sub.as_ref().unwrap().set_default_datareader_qos(match q { Some(q) => QosKind::Specific(rqos(q)), None => QosKind::Default }).await,
+            "topic" => p1.set_default_topic_qos(match q { Some(q) => QosKind::Specific(tqos(q)), None => QosKind::Default }).await,
+            "publisher" => p1.set_default_publisher_qos(match q { Some(q) => QosKind::Specific(pqos(q)), None => QosKind::Default }).await,
+            "subscriber" => p1.set_default_subscriber_qos(match q { Some(q) => QosKind::Specific(sqos(q)), None => QosKind::Default }).await,
+            other => panic!("set_default for kind {other}"),
+        }
+    }
+
+    async fn get_default(&self) -> Value {
+        let p1 = self.p1.clone().unwrap();
+        let err = json!({"error": "get_default"});
+        match self.kind.as_str() {
+            "writer" => self.parent_pub.as_ref().unwrap().get_default_datawriter_qos().await.map(|x| unwqos(&x)).unwrap_or(err),
+            "reader" => self.parent_sub.as_ref().unwrap().get_default_datareader_qos().await.map(|x| unrqos(&x)).unwrap_or(err),
+            "topic" => p1.get_default_topic_qos().await.map(|x| untqos(&x)).unwrap_or(err),
+            "publisher" => p1.get_default_publisher_qos().await.map(|x| unpqos(&x)).unwrap_or(err),
+            "subscriber" => p1.get_default_subscriber_qos().await.map(|x| unsqos(&x)).unwrap_or(err),
+            // the participant's own factory (DomainParticipantFactory) is shared by the whole process and not touched here
+            _ => abs(0, 1, 0, 0, 0, 0, 0, 0, 0, 0),
+        }
     }
 
     async fn observe(&self) -> Value {
@@ -327,12 +368,23 @@ impl Model for QosModel {
             "Create" => {
                 let en = a["en"].as_bool().unwrap();
                 let r = run(async {
-                    let r = self.create(&q, en).await;
+                    let r = self.create(Some(&q), en).await;
                     settle(500).await;
                     r
                 });
                 rn(&r)
             }
+            "CreateDefault" => {
+                let en = a["en"].as_bool().unwrap();
+                let r = run(async {
+                    let r = self.create(None, en).await;
+                    settle(500).await;
+                    r
+                });
+                rn(&r)
+            }
+            "SetDefault" => rn(&run(self.set_default(Some(&q)))),
+            "ResetDefault" => rn(&run(self.set_default(None))),
             "SetQos" => {
                 let r = run(async {
                     let r = match &self.ent {
@@ -399,6 +451,7 @@ impl Model for QosModel {
             };
             (qos, self.observe().await)
         });
-        json!({"ex": !matches!(self.ent, Ent::None), "en": self.enabled, "qos": qos, "ann": ann})
+        let dflt = run(self.get_default());
+        json!({"ex": !matches!(self.ent, Ent::None), "en": self.enabled, "qos": qos, "ann": ann, "dflt": dflt})
     }
 }
